@@ -76,15 +76,16 @@ pub struct Quirks {
     pub markmark_any_preceding: bool,  // mark-to-mark falls back to earlier marks of the run
     pub kern_overwrites: bool,         // kern fallback replaces the advance adjustments made so far
     pub single_vf0_falls_through: bool, // a covering SinglePos subtable with valueFormat 0 does not stop the search
+    pub mark_needs_gdef_class: bool,    // mark-to-base/ligature only attaches glyphs GDEF classes as marks
 }
 
 impl Quirks {
-    pub const NAMES: [&'static str; 7] = ["pair-second-glyph-never-consumed", "context-retried-inside-matched-input", "cursive-ignores-lookup-flags", "mark-lookup-ignores-lookup-flags", "markmark-falls-back-to-earlier-mark", "kern-fallback-overwrites-gpos-advance", "singlepos-valueformat0-subtable-falls-through"];
+    pub const NAMES: [&'static str; 8] = ["pair-second-glyph-never-consumed", "context-retried-inside-matched-input", "cursive-ignores-lookup-flags", "mark-lookup-ignores-lookup-flags", "markmark-falls-back-to-earlier-mark", "kern-fallback-overwrites-gpos-advance", "singlepos-valueformat0-subtable-falls-through", "mark-attachment-requires-gdef-mark-class"];
     pub fn all() -> Quirks {
-        Quirks { pair_second_always_next: true, context_no_resume: true, cursive_marks_only: true, mark_no_flags: true, markmark_any_preceding: true, kern_overwrites: true, single_vf0_falls_through: true }
+        Quirks { pair_second_always_next: true, context_no_resume: true, cursive_marks_only: true, mark_no_flags: true, markmark_any_preceding: true, kern_overwrites: true, single_vf0_falls_through: true, mark_needs_gdef_class: true }
     }
     pub fn get(&self, i: usize) -> bool {
-        [self.pair_second_always_next, self.context_no_resume, self.cursive_marks_only, self.mark_no_flags, self.markmark_any_preceding, self.kern_overwrites, self.single_vf0_falls_through][i]
+        [self.pair_second_always_next, self.context_no_resume, self.cursive_marks_only, self.mark_no_flags, self.markmark_any_preceding, self.kern_overwrites, self.single_vf0_falls_through, self.mark_needs_gdef_class][i]
     }
     pub fn set(&mut self, i: usize, v: bool) {
         match i {
@@ -94,7 +95,8 @@ impl Quirks {
             3 => self.mark_no_flags = v,
             4 => self.markmark_any_preceding = v,
             5 => self.kern_overwrites = v,
-            _ => self.single_vf0_falls_through = v,
+            6 => self.single_vf0_falls_through = v,
+            _ => self.mark_needs_gdef_class = v,
         }
     }
 }
@@ -103,6 +105,31 @@ pub struct Model<'a> {
     pub case: &'a Case,
     pub out: Outcome,
     pub q: Quirks,
+    /// glyphs that some mark attachment lookup lists as attaching marks (or as mark2) although
+    /// GDEF does not class them as marks
+    pub unclassed_marks: BTreeSet<u16>,
+}
+
+fn unclassed_marks(case: &Case) -> BTreeSet<u16> {
+    let mut v = BTreeSet::new();
+    if let Some(l) = &case.gpos {
+        for lk in &l.lookups {
+            for s in &lk.subs {
+                match s {
+                    Sub::MarkBase { mcov, bcov, .. } => {
+                        v.extend(mcov.glyphs.iter().copied());
+                        if lk.ltype == 6 {
+                            v.extend(bcov.glyphs.iter().copied());
+                        }
+                    }
+                    Sub::MarkLig { mcov, .. } => v.extend(mcov.glyphs.iter().copied()),
+                    _ => {}
+                }
+            }
+        }
+    }
+    v.retain(|&g| !case.uni.is_mark(g));
+    v
 }
 
 /// Ligature formation (GSUB type 4, IgnoreMarks): leftmost matches, marks skipped and kept.
@@ -171,10 +198,10 @@ pub fn form_ligatures(case: &Case) -> Vec<GState> {
 
 impl<'a> Model<'a> {
     pub fn new(case: &'a Case) -> Model<'a> {
-        Model { case, out: Outcome { g: form_ligatures(case), ..Default::default() }, q: Quirks::default() }
+        Model { case, out: Outcome { g: form_ligatures(case), ..Default::default() }, q: Quirks::default(), unclassed_marks: unclassed_marks(case) }
     }
     pub fn with_quirks(case: &'a Case, q: Quirks) -> Model<'a> {
-        Model { case, out: Outcome { g: form_ligatures(case), ..Default::default() }, q }
+        Model { case, out: Outcome { g: form_ligatures(case), ..Default::default() }, q, unclassed_marks: unclassed_marks(case) }
     }
 
     fn ev(&mut self, s: String) {
@@ -486,6 +513,21 @@ impl<'a> Model<'a> {
     }
 
     fn attach(&mut self, j: usize, b: usize, ba: Anchor, ma: Anchor, what: &str) {
+        let uni = &self.case.uni;
+        let gj = self.out.g[j].gid;
+        if !uni.is_mark(gj) {
+            // the coverage table of the lookup says which glyph is the mark, not GDEF
+            let why = if !uni.has_gdef {
+                "no-gdef"
+            } else if !uni.has_classdef {
+                "no-glyph-classdef"
+            } else if uni.cls(gj) == 0 {
+                "mark-not-classed-in-gdef"
+            } else {
+                "mark-classed-as-base-in-gdef"
+            };
+            self.ev(format!("mark-attach:{}", why));
+        }
         self.anchor_ev(&ba, what);
         self.anchor_ev(&ma, "mark");
         let g = &mut self.out.g[j];
@@ -503,11 +545,27 @@ impl<'a> Model<'a> {
         let g = self.out.g[j].gid;
         match lk.ltype {
             4 | 5 => {
+                if self.q.mark_needs_gdef_class && !self.is_mark(j) {
+                    return;
+                }
                 let b = match (0..j).rev().find(|&k| !self.is_mark(k)) {
                     Some(b) => b,
                     None => return,
                 };
                 let bg = self.out.g[b].gid;
+                if self.unclassed_marks.contains(&bg) {
+                    // the closest preceding non-mark (by GDEF) is itself used as a mark by some
+                    // lookup: whether the search for the base continues past it is engine-specific
+                    let covered = lk.subs.iter().any(|s| match s {
+                        Sub::MarkBase { mcov, .. } | Sub::MarkLig { mcov, .. } => mcov.index(g).is_some(),
+                        _ => false,
+                    });
+                    if covered {
+                        self.out.g[j].nojudge = true;
+                        self.out.amb.insert("base-search-meets-unclassed-mark");
+                    }
+                    return;
+                }
                 for s in &lk.subs {
                     match s {
                         Sub::MarkBase { mcov, bcov, marks, bases, .. } => {
@@ -575,6 +633,14 @@ impl<'a> Model<'a> {
                     Some(k) => k,
                     None => return,
                 };
+                let covered = lk.subs.iter().any(|s| matches!(s, Sub::MarkBase { mcov, .. } if mcov.index(g).is_some()));
+                if covered && (!self.is_mark(j) || self.unclassed_marks.contains(&self.out.g[k].gid)) {
+                    // mark-to-mark between glyphs GDEF does not class as marks: engines decide by
+                    // GDEF class, by earlier attachments, or by coverage
+                    self.out.g[j].nojudge = true;
+                    self.out.amb.insert("markmark-with-unclassed-mark");
+                    return;
+                }
                 if !self.is_mark(k) {
                     return;
                 }
